@@ -241,6 +241,13 @@ def drive(run, tier, rng, focus):
         run.violation({"kind": "standardize_trace_rejected_" + clause, "clause": clause, "event": line,
                        "failing_event": t["events"][line - 1], "trace": t})
     run.sample(traces[1])
+    if not rejected and not tr.violated:
+        victim = next(t for t in traces if any(e["op"] in ("accv", "acct") and not e["err"] and e["stats"]["n"] > 0 for e in t["events"]))
+
+        def corrupt(t):
+            e = next(e for e in t["events"] if e["op"] in ("accv", "acct") and not e["err"] and e["stats"]["n"] > 0)
+            e["stats"]["n"] += 1
+        common.assert_binding_live(run, "MC_TraceStandardize", "TraceStandardize.cfg", victim, corrupt, "the observed vector count off by one")
 
 
 def check_apply(run, obj, bag, base, norm_var, nprng, ev):
